@@ -188,8 +188,9 @@ func (cj *CookieJar) dumpCookiesToReq(req *fasthttp.Request) {
 	}
 }
 
-// parseCookiesFromResp parses the cookies from the response and stores them for the specified host and path.
-func (cj *CookieJar) parseCookiesFromResp(host, path []byte, resp *fasthttp.Response) {
+// parseCookiesFromResp parses the cookies from the response and stores them for the specified host.
+// The path of the request is not used: a cookie applies to the path it names itself.
+func (cj *CookieJar) parseCookiesFromResp(host, _ []byte, resp *fasthttp.Response) {
 	host = hostWithoutPort(host)
 	// see SetByHost: the key must never alias the request
 	hostStr := string(host)
@@ -208,12 +209,9 @@ func (cj *CookieJar) parseCookiesFromResp(host, path []byte, resp *fasthttp.Resp
 		c := fasthttp.AcquireCookie()
 		_ = c.ParseBytes(value) //nolint:errcheck // ignore error
 
-		// A cookie is identified by its name and its own path, the path of the request is only the default.
-		cookiePath := c.Path()
-		if len(cookiePath) == 0 {
-			cookiePath = path
-		}
-		existing := searchCookieByKeyAndPath(key, cookiePath, cookies)
+		// A cookie is identified by its name and its own path, exactly as in SetByHost: a cookie without a Path
+		// attribute is stored without one, so it must not be looked up under the path of the request.
+		existing := searchCookieByKeyAndPath(key, c.Path(), cookies)
 		live := c.Expire().Equal(fasthttp.CookieExpireUnlimited) || c.Expire().After(now)
 		// Max-Age takes precedence over Expires (RFC 6265 5.3); zero or less means "expired now"
 		if seconds, ok := maxAgeAttribute(value); ok {
